@@ -14,10 +14,10 @@ def merged(a, k):
     return d
 
 
-for (l, tier) in ((0, 'thorough'), (5, 'quick'), (64, 'thorough'), (70, 'thorough'), (130, 'thorough')):
+for (l, tier) in ((0, 'thorough'), (5, 'quick'), (64, 'deep'), (70, 'deep'), (130, 'deep')):
     for kind, kn in enumerate(('iter', 'one_iter', 'zero_iter')):
         for k in (2, 4, 6):
-            inst(P, 'c10_bv_%s_l%d_k%d' % (kn, l, k), 'c10::bitvector(%d, %d, %d)' % (l, k, kind), tier=tier if (k == 4 and kn == 'iter') or (k == 2 and kn != 'iter') else 'thorough', unwind=26,
+            inst(P, 'c10_bv_%s_l%d_k%d' % (kn, l, k), 'c10::bitvector(%d, %d, %d)' % (l, k, kind), tier=tier if (k == 4 and kn == 'iter') or (k == 2 and kn != 'iter') else ('thorough' if (l <= 5 and k == 4) or (kn == 'iter' and l <= 70 and k == 4) else 'deep'), unwind=26,
                  unwindset=merged({r'OneIter<.*> as std::iter::Iterator>::(next|nth)$': 5, r'OneIter<.*> as std::iter::DoubleEndedIterator>::next_back$': 5, r'c01::any_bits': 5, r'advance_back_by': l + 3, r'advance_by': l + 3}, k),
                  cap=900, cap_thorough=3600, mem=8 if l < 64 else 20, weight=l + 10 * k,
                  desc='BitVector::%s over %d symbolic bits: %d calls of symbolic kind next/next_back/nth(n)/nth_back(n), n over all usize; item, rank and len() checked at every step' % (kn, l, k),
@@ -55,7 +55,7 @@ class LUW(dict):
         return True
 
 
-for (n, m, multi, tier) in ((3, 1, False, 'thorough'), (2, 2, True, 'thorough'), (6, 2, False, 'thorough'), (6, 3, True, 'thorough'), (12, 3, False, 'thorough'), (4, 6, True, 'thorough'), (1 << 63, 2, False, 'thorough')):
+for (n, m, multi, tier) in ((3, 1, False, 'deep'), (2, 2, True, 'deep'), (6, 2, False, 'deep'), (6, 3, True, 'deep'), (12, 3, False, 'deep'), (4, 6, True, 'deep'), (1 << 63, 2, False, 'deep')):
     for kind, kn in enumerate(('iter', 'one_iter', 'zero_iter')):
         if (kn == 'iter' and n > 64) or (kn == 'zero_iter' and (multi or n > 64)):
             continue
@@ -68,7 +68,7 @@ for name, (units, sw, trail) in RLS.items():
     for kind, kn in enumerate(('run_iter', 'one_iter', 'zero_iter', 'iter')):
         q = name == 'one_small' and kn in ('run_iter',)
         call = 'c10::rl(&[%s], %d, %s, %d, %d)' % (', '.join('(%d, %d)' % u for u in units), sw, 'true' if trail else 'false', 2 if q else 4, kind)
-        inst(P, 'c10_rl_%s_%s' % (name, kn), call, tier='quick' if q else 'thorough', unwind=10, unwindset=merged(dict(rl_uw(units), **{r'advance_by|advance_back_by|try_fold|try_rfold|::nth$': 8 * len(units) + 4}), 4),
+        inst(P, 'c10_rl_%s_%s' % (name, kn), call, tier='quick' if q else 'deep', unwind=10, unwindset=merged(dict(rl_uw(units), **{r'advance_by|advance_back_by|try_fold|try_rfold|::nth$': 8 * len(units) + 4}), 4),
              stubs=['simple_sds::rl_vector::index::SampleIndex::new => stubs::sample_index_new_contract'], cap=1200, cap_thorough=3600, mem=12 if q else 28, weight=60,
              desc='RLVector %s (%s, symbolic runs): 4 calls of symbolic kind next/nth(n)' % (kn, name), shape={'runs': units, 'iterator': kn})
 
